@@ -138,7 +138,7 @@ def run(ctx):
     cfgs = []
     for l in langs:
         for s in sty:
-            for v in (speech_run.VERBOSITY if ctx.tier == "thorough" else [rng.choice(speech_run.VERBOSITY)]):
+            for v in speech_run.VERBOSITY:          # all three in both tiers (a rule branch taken only for Terse hid a failing rule once)
                 cfgs.append((l, s, v, rng.choice(codes)))
     for c in codes:
         cfgs.append((rng.choice(langs), rng.choice(sty), "Medium", c))
